@@ -120,11 +120,15 @@ def gen_sets(r):
             "steps": steps, "src": "gen-sets"}
 
 
-def hammer_scenario(r, readers, ops, appends, free_ops):
+def hammer_scenario(r, readers, ops, appends, free_ops, mode="both"):
+    """Concurrent lookups against the append path on one GuardianSets instance: a logged phase (validated as a
+    concurrent history) and a free-running phase (no logging while it runs; results validated by value).  One instance
+    per mode, because the race detector reports a racy address once: mode 'lookup' hammers GetGuardianSet only,
+    'current' GetCurrentGuardianSet only."""
     k = appends * 2 + 2
     chain = universe(r, k)
-    steps = [{"ev": "Hammer", "a": {"readers": readers, "ops": ops, "appends": appends, "free": False, "seed": r.randrange(1, 10 ** 6)}},
-             {"ev": "Hammer", "a": {"readers": readers, "ops": free_ops, "appends": appends, "free": True, "seed": r.randrange(1, 10 ** 6)}}]
+    steps = [{"ev": "Hammer", "a": {"readers": readers, "ops": ops, "appends": appends, "free": False, "mode": mode, "seed": r.randrange(1, 10 ** 6)}},
+             {"ev": "Hammer", "a": {"readers": readers, "ops": free_ops, "appends": appends, "free": True, "mode": mode, "seed": r.randrange(1, 10 ** 6)}}]
     return {"init": {"chain": chain, "n0": 1, "top": 0, "qcap": 1, "up": True}, "steps": steps, "src": "hammer"}
 
 
@@ -335,7 +339,7 @@ def classify_reject(trace_lines, bad, scenario):
     """Signature of an unexplained line (the verdict is TLC's; this only names the class of the input)."""
     ev = bad["ev"]
     a = bad.get("a", {})
-    top, up, poisoned, pending = None, False, False, False
+    top, up = None, False
     for ln in trace_lines:
         if ln is bad:
             break
@@ -344,16 +348,6 @@ def classify_reject(trace_lines, bad, scenario):
             up = ln["a"]["up"]
         elif ln["ev"] == "ChainGrow":
             top = ln["a"]["top"]
-        elif ln["ev"] == "LookupCall" and up and ln["a"]["i"] > top:
-            pending = True
-        elif ln["ev"] == "PushCall" and up and ln["a"]["v"]["setIdx"] > top:
-            pending = True
-        elif ln["ev"] in ("LookupRet", "PushRet") and pending:
-            poisoned, pending = True, False
-    if poisoned and ev in ("LookupRet", "CurrentRet", "PushRet", "AppendRet", "State") and a.get("res", {}).get("tag") != "panic":
-        # an index that does not exist on chain was asked for earlier in this trace (the chain answering): the code
-        # has cached key-less sets for it, every later disagreement of this trace is a consequence of that
-        return "reject/%s/after-index-not-on-chain-was-cached-as-empty-set" % ev
     if ev in ("LookupRet", "CurrentRet", "FreeRet"):
         res = a.get("res", {})
         if res.get("tag") == "panic":
@@ -366,6 +360,9 @@ def classify_reject(trace_lines, bad, scenario):
         calls = [ln for ln in trace_lines if ln["ev"] == "PushCall" and ln["n"] < bad["n"]]
         if calls:
             cls = calls[-1]["a"]["v"].get("cls", calls[-1]["a"]["v"].get("id"))
+        if calls and up and top is not None and calls[-1]["a"]["v"]["setIdx"] > top and a.get("out") == "error":
+            # the verdict is the right one, the state is not: the index that is not on chain was cached
+            return "reject/PushRet/index-not-on-chain-cached-as-empty-set"
         return "reject/PushRet/%s/%s" % (a.get("out"), cls)
     if ev == "AppendRet" and "panic" in a:
         return "panic/AppendRet"
